@@ -2,6 +2,8 @@ import Driver.Util
 import ZvbiModel.Search.Model
 import ZvbiModel.Search.Matcher
 import ZvbiModel.Search.Current
+import ZvbiModel.Search.Cancel
+import ZvbiModel.Ure.CurrentExec
 import ZvbiModel.Ure.Exec
 import ZvbiModel.Ure.Dfa
 import ZvbiModel.Ure.Current
@@ -12,6 +14,10 @@ open Zvbi.Driver Zvbi.Search
 structure St where
   cache : Cache := {}
   search : Option (SearchSt × Option Exec) := none
+  /-- `progress <k>`: the progress callback returns FALSE at every k-th invocation (0 = never) -/
+  progK : Nat := 0
+  /-- invocations of the progress callback so far -/
+  progN : Nat := 0
 
 def init : St := {}
 
@@ -22,7 +28,7 @@ def ureExec (cf : Bool) (pat : List Nat) : Option Exec :=
   match Zvbi.Ure.compile Zvbi.Ure.Shape.current Zvbi.Ure.CType.probed 0 cf pat with
   | .dfa d =>
     some (fun fl text =>
-      match Zvbi.Ure.exec Zvbi.Ure.Shape.current Zvbi.Ure.CType.probed d
+      match Zvbi.Ure.execCur Zvbi.Ure.CType.probed d
               ((if fl.notBol then 4 else 0) + (if fl.notEol then 8 else 0)) text with
       | .found ms me => some (ms, me)
       | _ => none)
@@ -149,13 +155,18 @@ def step (s : St) (ws : List String) : St × String :=
       | none => (s, "rej nosearch")
       | some (_, none) => (s, "ok unsupported")
       | some (ss, some ex) =>
-        let o := searchNext Shape.current ex walkFuel s.cache ss d
+        let (o, n) := if s.progK = 0 then (searchNext Shape.current ex walkFuel s.cache ss d, s.progN)
+                      else searchNextP s.progK Shape.current ex walkFuel s.cache ⟨ss, s.progN⟩ d
         match o.res with
         | .assertFail => (s, "ok assert page_stat")
         | .outOfFuel => (s, "ok hang")
         | .ret st =>
           let head := if st = 1 then s!"ok 1 pg={hexStr o.st.pgPgno}.{hexStr o.st.pgSubno} hl={hlStr o.st.hl}" else s!"ok {st}"
-          ({ cache := o.cache, search := some (o.st, some ex) }, head ++ ctxStr o.st)
+          ({ s with cache := o.cache, search := some (o.st, some ex), progN := n }, head ++ ctxStr o.st)
+  | ["progress", k] =>
+    match parseInt k with
+    | some k => if k < 0 ∨ k > 1000 then (s, "rej parse") else ({ s with progK := k.toNat, progN := 0 }, "ok")
+    | none => (s, "rej parse")
   | ["endsearch"] => ({ s with search := none }, "ok")
   | _ => (s, "rej op")
 
